@@ -187,7 +187,14 @@ def run_harness(name, tier, seed, arg=None, shards=1, race=False, timeout=3600):
             cmd += ['-arg', arg]
         cmd.append(name)
         penv = dict(env, VERIF_TRACE=os.path.join(d, 'trace%d.txt' % i))
-        procs.append((subprocess.Popen(cmd, env=penv, stdout=subprocess.PIPE, stderr=subprocess.STDOUT, text=True), out))
+        # an address-space cap per shard (not for -race builds, which reserve far more): a runaway allocation ends that
+        # shard with a Go "out of memory" fatal - reported with the traced input - instead of exhausting the machine
+        pre = None
+        if not race:
+            def pre():
+                import resource
+                resource.setrlimit(resource.RLIMIT_AS, (24 << 30, 24 << 30))
+        procs.append((subprocess.Popen(cmd, env=penv, stdout=subprocess.PIPE, stderr=subprocess.STDOUT, text=True, preexec_fn=pre), out))
     rc, log = 0, ''
     recs = []
     seen = set()
@@ -202,6 +209,10 @@ def run_harness(name, tier, seed, arg=None, shards=1, race=False, timeout=3600):
             except Exception:
                 so = ''
             so = (so or '') + '\nharness timeout after %ds' % timeout
+            try:
+                so += '\ninput being evaluated at the timeout: ' + open(os.path.join(d, 'trace%d.txt' % procs.index((p, out)))).read()[:2000]
+            except Exception:
+                pass
         if p.returncode != 0:
             rc = p.returncode
             head = '\n'.join((so or '').split('\n')[:12])
